@@ -28,6 +28,7 @@ import (
 	"github.com/pkg/errors"
 	"io"
 	"math"
+	"sort"
 	"strings"
 )
 
@@ -114,12 +115,18 @@ func newCursor(ctx context.Context, state State, itf ItFactory) (*crsr, error) {
 	} else {
 		mxs := make([]model.Iterator, len(srcs))
 
-		i := 0
-		for tags, jrnl := range srcs {
+		// the leaf order of the mixer tree is the priority that breaks timestamp ties between partitions:
+		// keep it the same for every cursor over these partitions (map iteration order is random)
+		lines := make([]tag.Line, 0, len(srcs))
+		for tags := range srcs {
+			lines = append(lines, tags)
+		}
+		sort.Slice(lines, func(i, j int) bool { return lines[i] < lines[j] })
+		for i, tags := range lines {
+			jrnl := srcs[tags]
 			jit := itf.Itearator(jrnl, tmr)
 			jd[jrnl.Name()] = &jrnlDesc{tags, jrnl, jit}
 			mxs[i] = (&model.LogEventIterator{}).Wrap(tags, jit)
-			i++
 		}
 
 		// mixing them
